@@ -42,7 +42,8 @@ TECHNIQUE = 'postcondition / conservation monitor (independent re-summation) on 
 
 def plan(tier, seed):
     per = 400 if tier == 'quick' else 10000
-    return [{'seed': seed * 1000 + i, 'n': per} for i in range(16)]
+    return [{'seed': seed * 1000 + i, 'n': per} for i in range(16)] + \
+        [{'seed': seed, 'n': 0, 'pytest': ['tests/test_emissions.py', 'tests/test_emissions_storage.py']}]
 
 
 def required(tier):
@@ -50,11 +51,15 @@ def required(tier):
           'zero-burn:yes', 'zero-burn:no', 'stratospheric:yes', 'stratospheric:no',
           'length:2', 'apu:none', 'apu:zero-fuel', 'apu:normal', 'lifecycle:on',
           'lifecycle:off', 'class:wide', 'class:narrow', 'class:small', 'class:freight',
-          'fuel:jetA', 'fuel:random', 'outcome:balanced', 'contract:evaluated']
+          'fuel:jetA', 'fuel:random', 'outcome:balanced', 'contract:evaluated', 'workload:repository-tests-under-contract']
     return {'classes': cl, 'counters': {'contract_evaluations': 1000}, 'evaluations': 1000}
 
 
 def run_shard(spec, rec):
+    if spec.get('pytest'):
+        from vlib.pytest_contracts import run_repo_tests
+        run_repo_tests('C01', spec['pytest'], rec)
+        return
     import contextlib
     import io
 
